@@ -105,6 +105,13 @@ func (fc *FnCtx) callModTargets(st *State, call *ast.CallExpr, stableBase func(a
 	if lc := fc.cs.Funcs["extern "+lkey]; lc != nil {
 		c, home = lc, fc.cs
 	}
+	if c == nil && !fc.eng.effectFree(callee) && callee.Pkg() == fc.pkg.Types && fc.mtDepth < 6 {
+		if d := fc.eng.declOf(fc.pkg, callee); d != nil && d.Body != nil {
+			fc.mtDepth++
+			defer func() { fc.mtDepth-- }()
+			return fc.modTargets(st, d.Body)
+		}
+	}
 	if c == nil {
 		return nil // effect-free allow-list or error reported when the call is executed
 	}
